@@ -179,12 +179,22 @@ def tops(t: Term) -> List[str]:
     return [s[1] for s in subterms(t) if isinstance(s, tuple) and len(s) == 2 and s[0] == "top"]
 
 
-def strip_sites(t: Any) -> Any:
-    if isinstance(t, tuple):
-        if t and t[0] == "app" and len(t) == 5:
-            return ("app", strip_sites(t[1]), strip_sites(t[2]), strip_sites(t[3]))
-        return tuple(strip_sites(x) for x in t)
-    return t
+def strip_sites(t: Any, _memo: Optional[Dict[int, Any]] = None) -> Any:
+    """terms without the call-site tags of their applications. Terms are DAGs (a helper's result substituted at several
+    places is one object): shared parts are rewritten once (memo by identity), or a generator-heavy function costs minutes."""
+    if not isinstance(t, tuple):
+        return t
+    if _memo is None:
+        _memo = {}
+    got = _memo.get(id(t))
+    if got is not None:
+        return got[1]
+    if t and t[0] == "app" and len(t) == 5:
+        r = ("app", strip_sites(t[1], _memo), strip_sites(t[2], _memo), strip_sites(t[3], _memo))
+    else:
+        r = tuple(strip_sites(x, _memo) for x in t)
+    _memo[id(t)] = (t, r)  # t kept alive so that its id is not re-used within this call
+    return r
 
 
 def strip_visits(t: Any) -> Any:
